@@ -23,6 +23,7 @@ mod vxlate;
 mod vctor;
 mod text;
 mod translate;
+mod translate_mp;
 mod tree;
 
 fn main() {
@@ -53,6 +54,7 @@ fn main() {
         "ext" => ext::run(&args[2..]),
         "eqord" => eqord::run(&args[2..]),
         "translate" => translate::run(&args[2..]),
+        "translate-mp" => translate_mp::run(&args[2..]),
         "policy" => policy::run(&args[2..]),
         "robust" => robust::run(&args[2..]),
         other => {
